@@ -298,6 +298,8 @@ impl Drop for Child {
 }
 
 struct Fleet {
+    /// messages received while waiting for somebody else
+    backlog: Vec<(usize, Value)>,
     kids: Vec<Child>,
     rx: mpsc::Receiver<(usize, Value)>,
     tx: mpsc::Sender<(usize, Value)>,
@@ -307,7 +309,7 @@ struct Fleet {
 impl Fleet {
     fn new() -> Fleet {
         let (tx, rx) = mpsc::channel();
-        Fleet { kids: Vec::new(), rx, tx, exe: std::env::current_exe().unwrap() }
+        Fleet { backlog: Vec::new(), kids: Vec::new(), rx, tx, exe: std::env::current_exe().unwrap() }
     }
     /// spawn one process with QE_IPC_CACHE = mode ("0" | "1" | "auto"); returns its index
     fn spawn(&mut self, mode: &str, rayon: &str) -> usize {
@@ -354,6 +356,9 @@ impl Fleet {
     /// wait for the next message of child `idx` with the given "ev"
     fn expect(&mut self, idx: usize, ev: &str, secs: u64) -> Result<Value, String> {
         let dl = Instant::now() + Duration::from_secs(secs);
+        if let Some(pos) = self.backlog.iter().position(|(i, v)| *i == idx && v["ev"] == ev) {
+            return Ok(self.backlog.remove(pos).1);
+        }
         loop {
             let left = dl.saturating_duration_since(Instant::now());
             match self.rx.recv_timeout(left) {
@@ -363,6 +368,9 @@ impl Fleet {
                     }
                     if v["ev"] == "eof" {
                         return Err(format!("child {i} died"));
+                    }
+                    if v["ev"] == "stress_done" || v["ev"] == "reset_ok" || v["ev"] == "built" {
+                        self.backlog.push((i, v));
                     }
                 }
                 Err(_) => return Err(format!("timeout waiting for {ev} of child {idx}")),
